@@ -135,6 +135,11 @@ func c04Run(t *testing.T, sc Scenario, res *Result) {
 			for _, v := range big.Draw(t, "big") {
 				h = mix(h, v)
 			}
+			// collections of variable size after the payload: their lengths are decided by the bits alone
+			for _, v := range rapid.SliceOf(rapid.Uint16()).Draw(t, "tail") {
+				h = mix(h, uint64(v)+1)
+			}
+			h = mix(h, uint64(len(rapid.String().Draw(t, "str"))))
 			return h
 		}
 		var inRun []uint64
